@@ -36,7 +36,7 @@ m = {
                  "kind_free_text": "repository-specific static analyser (go/packages + go/types + go/ssa + VTA call graph, golang.org/x/tools v0.29.0 vendored): CFG must/may ordering, branch-fact dominance, lock regions, who-may-write/call, automaton extraction, constant/regexp-language evaluation"}],
     "checks": checks,
     "not_applicable": na,
-    "notes": "All checks are static (no code of /repo is executed). Exit 0 = every obligation discharged; exit 1 + VIOLATION lines = a rule instance is violated; exit 2 + UNRESOLVED/ERROR lines = the checker could not decide (anchor renamed, type errors) and refuses to pass. Thorough tier = the same rules on the linux/amd64, linux/arm64 and linux/386 builds, plus the checker's self-test (selftest.py: hand-written and seeded breaking variants must be reported, 450+ behaviour-preserving variants and ten mechanically generated rewrites of the current tree must stay silent) whose result is embedded in the evidence but does not influence the verdict. Genuine defects found and repaired: known_findings.jsonl (status fixed, with /repo commit).",
+    "notes": "All checks are static (no code of /repo is executed). Exit 0 = every obligation discharged; exit 1 + VIOLATION lines = a rule instance is violated; exit 2 + UNRESOLVED/ERROR lines = the checker could not decide (anchor renamed, type errors) and refuses to pass. Thorough tier = the same rules on the linux/amd64, linux/arm64 and linux/386 builds, plus the checker's self-test (selftest.py: hand-written and seeded breaking variants must be reported, 530+ behaviour-preserving variants and ten mechanically generated rewrites of the current tree must stay silent) whose result is embedded in the evidence but does not influence the verdict. Genuine defects found and repaired: known_findings.jsonl (status fixed, with /repo commit).",
 }
 json.dump(m, open(os.path.join(here, "MANIFEST.json"), "w"), indent=1)
 print("checks:", len(checks), "not_applicable:", len(na))
